@@ -4,8 +4,14 @@ CONSTANTS Strategy = "rename"
           Locking = TRUE
           KeepEmpty = TRUE
           StampAt = "stat"
+          ObsFanout = "map"
+          GoneApply = "atomic"
+          EnvWhen = "absent"
+          MaxObs = 0
+          Deletes = FALSE
+          WriteBacks = TRUE
           MaxSec = 1
           MaxMod = 6
-INVARIANTS EventuallyVisible ObserversNotified NoFatal GettersTotal MergeKeepsOthers CommentsAndOrderSurvive WriteReadBack WriteReadBackMem AtomicOnDisk WriteInstalls
+INVARIANTS EventuallyVisible VisibleThroughGetters ObserversNotified DefaultsWhenGone NoTornState NoFatal GettersTotal MergeKeepsOthers CommentsAndOrderSurvive WriteReadBack WriteReadBackMem AtomicOnDisk WriteInstalls
 PROPERTY NotifyAfterApply
 CHECK_DEADLOCK FALSE
